@@ -1565,6 +1565,11 @@ func planC20(tier string, seed int64) (*Plan, error) {
 	each("H_c20_block", 3, "nt", 2, "nf", 1)
 	each("H_c20_block", 2, "nt", 1, "nf", 1)
 	each("H_c20_block", 2, "nt", 2, "nf", 0)
+	// the probes' line behind a paragraph line (top level and inside a block quote): only parsers that may interrupt a paragraph are tried
+	each("H_c20_block", 2, "nt", 1, "nf", 1, "doc", 1)
+	each("H_c20_block", 2, "nt", 0, "nf", 2, "doc", 1)
+	each("H_c20_block", 2, "nt", 0, "nf", 2, "doc", 2)
+	each("H_c20_block", 2, "nt", 1, "nf", 1, "doc", 2)
 	each("H_c20_inline", 3, "n", 3)
 	each("H_c20_render", 3, "n", 3)
 	each("H_c20_transformers", 4, "n", 2)
@@ -1582,7 +1587,7 @@ func planC20(tier string, seed int64) (*Plan, error) {
 	p.Jobs = jobs
 	p.Bounds = map[string]interface{}{
 		"priorities":   "symbolic integers in [1,1999] (and, in one job per component type, any 64-bit integer), pairwise distinct and different from 1000 (built-in paragraph parser / HTML renderer): every relative order among the probes and against every built-in priority is covered by solver forks in the real sort.Slice comparator",
-		"components":   "block parsers: 2 on trigger '@' + 1 trigger-less, 1+1, 2+0 (thorough 2+2); inline parsers: 3 on trigger '%' (4 in one order; thorough all); node renderers: 3 overriding ThematicBreak (4 in one order); 2 paragraph + 2 AST transformers (3+3 in one order); which probe accepts is a solver-enumerated choice including 'none'",
+		"components":   "block parsers: 2 on trigger '@' + 1 trigger-less, 1+1, 2+0 (thorough 2+2); inline parsers: 3 on trigger '%' (4 in one order; thorough all); node renderers: 3 overriding ThematicBreak (4 in one order); 2 paragraph + 2 AST transformers (3+3 in one order); which probe accepts is a solver-enumerated choice including 'none'; block probes are exercised on a line that opens the document, on a line behind a paragraph line, and on such a line inside a block quote; paragraph transformers are observed relative to the built-in link-reference transformer at 100 (they see one line less once it has run)",
 		"registration": "every permutation of the registration order x route {options of New, one Extender calling AddOptions, alternating} (quick: one seeded route per permutation; thorough: all three)",
 		"missing kind": "a node of a kind created after every kind known to the renderer, with a paragraph below it, is rendered: no error, children rendered",
 		"outside":      "equal priorities; more probes; probes sharing a trigger with a built-in parser",
